@@ -1050,3 +1050,5 @@ func reachingStoreAddr(ld *ssa.UnOp, addr ssa.Value) ssa.Value {
 	}
 	return nil
 }
+
+func constantInt(k int64) constant.Value { return constant.MakeInt64(k) }
